@@ -80,11 +80,15 @@ theorem eqn1_sstep (o : Op) (r : Expr) (size : Nat) (sf : Bool) (prop : Nat) (hr
   by_cases hnc : r.isCst = false
   swap
   · cases r <;> simp [isCst] at hnc
-    exact ih.callUop o _ hr hq ho
+    apply SPost_bind; intro res hres
+    have := ih.callUop o _ hr hq ho res hres
+    exact SPost_pure ((Plain_setSf _ _).mpr this.1) (by rw [ideal_setSf]; exact this.2)
   have hself : SPost ρ (unSem o r.size (ideal ρ r)) (Except.ok (uop o r size sf prop)) :=
     SPost_ok (by simp only [Plain]; exact ⟨ho, hnc, hq⟩) (by simp only [ideal])
   split
-  · exact ih.callUop o _ hr hq ho
+  · apply SPost_bind; intro res hres
+    have := ih.callUop o _ hr hq ho res hres
+    exact SPost_pure ((Plain_setSf _ _).mpr this.1) (by rw [ideal_setSf]; exact this.2)
   · simp [Plain] at hq
   · rename_i ro rr rs rf rp
     simp only [WF] at hr
@@ -533,8 +537,9 @@ theorem eqn2snd_sstep (opts : Opts) (o : Op) (l : Expr) (rv rs : Nat) (rf : Bool
         · simp only [binSem, Nat.testBit_xor, hbA, hbB, Bool.xor_self, hnil]
     · exact htail
   · -- cst
-    refine SPost_of_eq (ih.callOp o _ _ hl hr hql hqr hag heq) ?_
-    rw [hv]
+    apply SPost_bind; intro res hres
+    have := ih.callOp o _ _ hl hr hql hqr hag heq res hres
+    exact SPost_pure ((Plain_setSf _ _).mpr this.1) (by rw [ideal_setSf, this.2, hv])
   · exact htail
 
 /-- `c = comp(n); c[0:n] = cst(0,n); c[a:b] = piece; c.simplify()` — the mask / shift rules -/
